@@ -21,8 +21,15 @@
 (* compares TimeFunc().Unix() with the integer claims.                     *)
 (*                                                                         *)
 (* Part "map".  JWTSessionCodec.New (session_jwt.go:34-71): assertion ->   *)
-(* subject and attribute claims, then RequireAttribute (middleware.go:     *)
-(* 235-254) over the claims.                                               *)
+(* times, subject and attribute claims, then RequireAttribute              *)
+(* (middleware.go:235-254) over the claims.                                *)
+(*                                                                         *)
+(* Part "life".  The same mint machine on assertions in which the IdP      *)
+(* states ends of its own (AuthnStatement/@SessionNotOnOrAfter,            *)
+(* Conditions/@NotOnOrAfter, SubjectConfirmationData/@NotOnOrAfter, each   *)
+(* before the mint, inside the codec lifetime or beyond it), the token     *)
+(* then coming back at clock positions around the end of the lifetime and  *)
+(* around the IdP's ends.                                                  *)
 (*                                                                         *)
 (* The Properties section is written from the statement of C16 only.       *)
 (***************************************************************************)
@@ -31,24 +38,32 @@ EXTENDS Integers, Sequences, FiniteSets, TLC, Json
 CONSTANTS Family,            \* "C16q" | "C16t" : which input families Init ranges over
           EnforceMethods,    \* parser.ValidMethods = {configured alg}      (TRUE in the code)
           EnforceSessMarker, \* JWTSessionCodec.Decode checks saml-session        (TRUE)
-          EnforceTrkMarker   \* JWTTrackedRequestCodec.Decode checks saml-authn-request (TRUE)
+          EnforceTrkMarker,  \* JWTTrackedRequestCodec.Decode checks saml-authn-request (TRUE)
+          SessionEndRule     \* what JWTSessionCodec.New does with AuthnStatement/@SessionNotOnOrAfter:
+                             \* "ignore" (the code) | "min" (an earlier IdP end shortens the session) |
+                             \* "max" (a later IdP end lengthens it)
 \* The three switches are TRUE in every registered configuration.  Setting one to
 \* FALSE is the design-level counterpart of the code mutants C16 must catch: TLC then
 \* reports OnlyMintedSessionTokensAuthenticate (resp. TrackerRefusesSessionTokens) violated.
+\* SessionEndRule is "ignore" in every registered configuration (named deviation
+\* IgnoresIdPSessionEnd: the code reads none of the IdP-stated ends).  "min" is a stricter
+\* implementation the statement permits: every invariant still holds.  "max" is the design-level
+\* counterpart of a code change C16 must catch: TLC reports NothingLengthensTheSession violated.
 
 Absent  == -999999999      \* a time claim that is not in the token (StandardClaims: 0 = unset)
 Far     == 100000          \* "far" in seconds; larger than every lifetime used
 TrkLife == 90              \* saml.MaxIssueDelay, lifetime of tracked-request tokens
 
-VARIABLES part,    \* "token" | "map"
+VARIABLES part,    \* "token" | "map" | "life"
           cfg,     \* [spkey, life, cookie]
           in,      \* abstract input: token record / assertion record
           pc,      \* <<machine, stage>>
           res,     \* [sess |-> [verdict, step], trk |-> [verdict, step]]
           err,     \* error GetSession returns: "none" | "nil" | "ErrNoSession"
           out,     \* RequireAccount: "none" | "handler" | "flow" | "onerror"
-          subj, claims, si, ai, ni      \* part "map": JWTSessionCodec.New state
-vars == <<part, cfg, in, pc, res, err, out, subj, claims, si, ai, ni>>
+          subj, claims, si, ai, ni,     \* parts "map", "life": JWTSessionCodec.New state
+          mt                            \* ... the token's iat, nbf, exp in seconds after the mint
+vars == <<part, cfg, in, pc, res, err, out, subj, claims, si, ai, ni, mt>>
 
 ----------------------------------------------------------------------------
 (* configurations *)
@@ -180,13 +195,44 @@ MapCases == { <<c, a>> : c \in DiagCfgs, a \in MapInputs }
 Keys == {"F1", "N1", "N2", "SI"}
 
 ----------------------------------------------------------------------------
+(* assertions with IdP-stated ends (part "life") *)
+\* An end is given by its position relative to the mint time (0) and the codec lifetime l:
+\*   none | before (five minutes before the mint) | inside (half the lifetime) | beyond (seven hours
+\*   past mint + lifetime)
+\* authn : SessionIndex of each AuthnStatement ("" = attribute absent), sna : its SessionNotOnOrAfter
+\* cond  : Conditions/@NotOnOrAfter,  scd : SubjectConfirmationData/@NotOnOrAfter
+\* age   : seconds between the mint and the presentation of the token
+EndPos   == {"none", "before", "inside", "beyond"}
+BeyondBy == 25200
+EndAt(p, l) == CASE p = "before" -> -300 [] p = "inside" -> l \div 2 [] p = "beyond" -> l + BeyondBy [] OTHER -> Absent
+LifeAssn(authn, sna, cond, scd, age) ==
+  [subject |-> "nameid", stmts |-> << <<Attr("", "N1", <<"a">>)>> >>, authn |-> authn, sna |-> sna,
+   cond |-> cond, scd |-> scd, age |-> age]
+\* clock positions around the mint, around the inside end, around mint + lifetime, around the beyond end
+LifeAges(l) == {-1, 0, 1, (l \div 2) - 1, l \div 2, (l \div 2) + 1, l - 1, l, l + 1, l + (BeyondBy \div 2),
+                l + BeyondBy - 1, l + BeyondBy, l + BeyondBy + 1, l + BeyondBy + Far}
+\* 0..2 AuthnStatements, each with or without SessionIndex, SessionNotOnOrAfter in every position
+AuthnSeqs == { <<<<>>, <<>>>> } \cup { << <<i>>, <<e>> >> : i \in {"s1", ""}, e \in EndPos }
+             \cup { << <<i, j>>, <<e, f>> >> : i \in {"s1", ""}, j \in {"s2", ""}, e \in EndPos, f \in EndPos }
+AuthnFew  == { <<<<>>, <<>>>>, << <<"s1">>, <<"none">> >>, << <<"s1">>, <<"beyond">> >>, << <<"">>, <<"inside">> >>,
+               << <<"s1", "s2">>, <<"before", "beyond">> >> }
+LifeInputs(l) ==
+  CASE Family = "C16q" -> { LifeAssn(a[1], a[2], "none", "none", g) : a \in AuthnSeqs, g \in LifeAges(l) }
+                          \cup { LifeAssn(a[1], a[2], c, s, g) : a \in AuthnFew, c \in EndPos, s \in EndPos, g \in LifeAges(l) }
+    [] Family = "C16t" -> { LifeAssn(a[1], a[2], c, s, g) : a \in AuthnSeqs, c \in EndPos, s \in EndPos, g \in LifeAges(l) }
+LifeCases == UNION { { <<c, a>> : a \in LifeInputs(c.life) } : c \in IF Family = "C16q" THEN DiagCfgs ELSE FourCfgs }
+
+----------------------------------------------------------------------------
 Init == /\ \/ /\ part = "token" /\ (\E p \in TokCases : cfg = p[1] /\ in = p[2])
               /\ pc = <<"sess", "Cookie">>
            \/ /\ part = "map" /\ (\E p \in MapCases : cfg = p[1] /\ in = p[2])
-              /\ pc = <<"map", "Subject">>
+              /\ pc = <<"map", "Times">>
+           \/ /\ part = "life" /\ (\E p \in LifeCases : cfg = p[1] /\ in = p[2])
+              /\ pc = <<"map", "Times">>
         /\ res = [sess |-> [verdict |-> "none", step |-> "none"], trk |-> [verdict |-> "none", step |-> "none"]]
         /\ err = "none" /\ out = "none"
         /\ subj = "" /\ claims = [k \in Keys |-> <<>>] /\ si = 1 /\ ai = 1 /\ ni = 1
+        /\ mt = [iat |-> Absent, nbf |-> Absent, exp |-> Absent]
 
 (********************** the decode machines, step by step *****************)
 \* which marker claims the token carries
@@ -227,7 +273,7 @@ TimesOK == /\ in.exp = Absent \/ 0 < in.exp
 MarkerOK(c) == IF c = "sess" THEN ~EnforceSessMarker \/ SessMark(in) = "true"
                              ELSE ~EnforceTrkMarker \/ TrkMark(in) = "true"
 
-Rest == <<part, cfg, in, err, out, subj, claims, si, ai, ni>>
+Rest == <<part, cfg, in, err, out, subj, claims, si, ai, ni, mt>>
 Check(c, stage, ok, next) ==
   /\ pc = <<c, stage>>
   /\ (IF ok THEN pc' = <<c, next>> /\ UNCHANGED res
@@ -269,27 +315,33 @@ Accept(c) == /\ pc = <<c, "Accept">>
 ReturnSession == /\ pc = <<"sess", "Return">>
                  /\ err' = IF res.sess.verdict = "accept" THEN "nil" ELSE "ErrNoSession"
                  /\ pc' = <<"mw", "RequireAccount">>
-                 /\ UNCHANGED <<part, cfg, in, res, out, subj, claims, si, ai, ni>>
+                 /\ UNCHANGED <<part, cfg, in, res, out, subj, claims, si, ai, ni, mt>>
 
 \* middleware.go:117-129
 RequireAccount == /\ pc = <<"mw", "RequireAccount">>
                   /\ out' = IF res.sess.verdict = "accept" THEN "handler"
                             ELSE IF err = "ErrNoSession" THEN "flow" ELSE "onerror"
                   /\ pc' = <<"trk", "Cookie">>
-                  /\ UNCHANGED <<part, cfg, in, res, err, subj, claims, si, ai, ni>>
+                  /\ UNCHANGED <<part, cfg, in, res, err, subj, claims, si, ai, ni, mt>>
 
 ReturnTracker == /\ pc = <<"trk", "Return">>
                  /\ pc' = <<"done", "">>
-                 /\ UNCHANGED <<part, cfg, in, res, err, out, subj, claims, si, ai, ni>>
+                 /\ UNCHANGED <<part, cfg, in, res, err, out, subj, claims, si, ai, ni, mt>>
 
 (*********************** JWTSessionCodec.New, step by step ****************)
 KeyOf(a) == IF a.fn # "" THEN a.fn ELSE a.name          \* session_jwt.go:54-57
+
+\* :35-42 now := saml.TimeNow(); IssuedAt = NotBefore = now, ExpiresAt = now + MaxAge
+MintTimes == /\ pc = <<"map", "Times">>
+             /\ mt' = [iat |-> 0, nbf |-> 0, exp |-> cfg.life]
+             /\ pc' = <<"map", "Subject">>
+             /\ UNCHANGED <<part, cfg, in, res, err, out, subj, claims, si, ai, ni>>
 
 \* :44-48 subject only when Subject and NameID are present
 MapSubject == /\ pc = <<"map", "Subject">>
               /\ subj' = IF in.subject = "nameid" THEN "S" ELSE ""
               /\ pc' = <<"map", "Attr">>
-              /\ UNCHANGED <<part, cfg, in, res, err, out, claims, si, ai, ni>>
+              /\ UNCHANGED <<part, cfg, in, res, err, out, claims, si, ai, ni, mt>>
 
 \* :52-62 statements in order, attributes in order, values appended to the claim named KeyOf
 MapAttr == /\ pc = <<"map", "Attr">>
@@ -299,19 +351,37 @@ MapAttr == /\ pc = <<"map", "Attr">>
                        THEN si' = si + 1 /\ ai' = 1 /\ UNCHANGED <<claims, pc>>
                        ELSE /\ claims' = [claims EXCEPT ![KeyOf(in.stmts[si][ai])] = @ \o in.stmts[si][ai].vals]
                             /\ ai' = ai + 1 /\ UNCHANGED <<si, pc>>
-           /\ UNCHANGED <<part, cfg, in, res, err, out, subj, ni>>
+           /\ UNCHANGED <<part, cfg, in, res, err, out, subj, ni, mt>>
 
-\* :65-68 one SessionIndex value per AuthnStatement, appended to the claim "SessionIndex"
+\* :65-68 one SessionIndex value per AuthnStatement, appended to the claim "SessionIndex".
+\* Named deviation IgnoresIdPSessionEnd (SessionEndRule = "ignore"): the statement's
+\* SessionNotOnOrAfter is not read, and neither are Conditions and SubjectConfirmationData:
+\* the token ends at mint + MaxAge whatever the IdP says.
+SnaAt(i) == IF part = "life" THEN EndAt(in.sna[i], cfg.life) ELSE Absent
+EndRule(exp, e) == CASE e = Absent \/ SessionEndRule = "ignore" -> exp
+                     [] SessionEndRule = "min" -> IF e < exp THEN e ELSE exp
+                     [] SessionEndRule = "max" -> IF e > exp THEN e ELSE exp
 MapSessionIndex == /\ pc = <<"map", "SessionIndex">>
                    /\ IF ni > Len(in.authn)
-                        THEN pc' = <<"map", "Present">> /\ UNCHANGED <<claims, ni>>
-                        ELSE claims' = [claims EXCEPT !["SI"] = Append(@, in.authn[ni])] /\ ni' = ni + 1 /\ UNCHANGED pc
+                        THEN pc' = <<"map", "Present">> /\ UNCHANGED <<claims, ni, mt>>
+                        ELSE /\ claims' = [claims EXCEPT !["SI"] = Append(@, in.authn[ni])]
+                             /\ mt' = [mt EXCEPT !.exp = EndRule(@, SnaAt(ni))]
+                             /\ ni' = ni + 1 /\ UNCHANGED pc
                    /\ UNCHANGED <<part, cfg, in, res, err, out, subj, si, ai>>
 
 \* the token is encoded, presented while fresh, decoded: the handler runs with these claims
-MapPresent == /\ pc = <<"map", "Present">>
+MapPresent == /\ pc = <<"map", "Present">> /\ part = "map"
               /\ out' = "handler" /\ pc' = <<"done", "">>
-              /\ UNCHANGED <<part, cfg, in, res, err, subj, claims, si, ai, ni>>
+              /\ UNCHANGED <<part, cfg, in, res, err, subj, claims, si, ai, ni, mt>>
+
+\* part "life": the token is encoded and comes back, unchanged and in the session cookie of the
+\* deployment that minted it, in.age seconds after the mint.  Of the decode machine's checks only
+\* Times depends on the clock (StandardClaims.Valid, no leeway: now >= iat, now >= nbf, now < exp);
+\* the others pass by construction.  RequireAccount then runs the handler or starts the flow.
+LifePresent == /\ pc = <<"map", "Present">> /\ part = "life"
+               /\ out' = IF mt.iat <= in.age /\ mt.nbf <= in.age /\ in.age < mt.exp THEN "handler" ELSE "flow"
+               /\ pc' = <<"done", "">>
+               /\ UNCHANGED <<part, cfg, in, res, err, subj, claims, si, ai, ni, mt>>
 
 \* middleware.go:238-250 RequireAttribute(name, value): some value of claims[name] equals value
 ClaimAt(n) == IF n \in Keys THEN claims[n] ELSE <<>>
@@ -323,7 +393,7 @@ Next == \/ \E c \in {"sess", "trk"} :
              \/ CheckAlgAllowed(c) \/ VerifySignature(c) \/ CheckTimes(c) \/ CheckAudience(c)
              \/ CheckIssuer(c) \/ CheckMarker(c) \/ Accept(c)
         \/ CheckIndex \/ ReturnSession \/ RequireAccount \/ ReturnTracker
-        \/ MapSubject \/ MapAttr \/ MapSessionIndex \/ MapPresent
+        \/ MintTimes \/ MapSubject \/ MapAttr \/ MapSessionIndex \/ MapPresent \/ LifePresent
 Spec == Init /\ [][Next]_vars
 
 (************************** Properties (statement) *************************)
@@ -373,6 +443,27 @@ ExpectedVals(k) == Cat(Named(k)) \o (IF k = "SI" THEN in.authn ELSE <<>>)
 ExposesExactlyTheAssertion ==
   Done /\ part = "map" => /\ Ran /\ \A k \in Keys : claims[k] = ExpectedVals(k)
                           /\ subj = IF in.subject = "nameid" THEN "S" ELSE ""
+\* "no longer ago than the session lifetime": the session ends, at the latest, one lifetime after
+\* this SP's codec issued the token.  The IdP may state ends of its own in the assertion; an
+\* implementation may or may not let an EARLIER one shorten the session (the statement does not
+\* say), but nothing in the assertion can lengthen it.
+Life == part = "life"
+Min(S) == CHOOSE x \in S : \A y \in S : x <= y
+IdPEnds == ({ EndAt(in.sna[i], cfg.life) : i \in DOMAIN in.sna }
+            \cup { EndAt(in.cond, cfg.life), EndAt(in.scd, cfg.life) }) \ {Absent}
+EarliestEnd == Min({cfg.life} \cup IdPEnds)
+LifeWhy == [tooOld |-> in.age >= cfg.life + 1,           \* issued longer ago than the lifetime, by a second or more
+            notYet |-> in.age <= -1]                     \* presented before it was issued
+LifeMustReject == Life /\ (LifeWhy.tooOld \/ LifeWhy.notYet)
+\* issued by this SP no longer ago than the lifetime and before every end the IdP stated
+LifeMustAccept == Life /\ in.age >= 1 /\ in.age <= EarliestEnd - 1
+LifeClass == IF LifeMustReject THEN "MustReject" ELSE IF LifeMustAccept THEN "MustAccept" ELSE "DontCare"
+NothingLengthensTheSession        == Done /\ LifeMustReject => ~Ran
+FreshBeforeEveryEndAuthenticates  == Done /\ LifeMustAccept => Ran
+LifeExposesExactlyTheAssertion ==
+  Done /\ Life /\ Ran => /\ \A k \in Keys : claims[k] = ExpectedVals(k)
+                         /\ subj = "S"
+
 \* two differently identified attributes share a claim name, or an attribute is called SessionIndex:
 \* "exactly those of the assertion" does not say how they combine
 Ambiguous == \/ \E i \in DOMAIN Flat, j \in DOMAIN Flat :
@@ -397,4 +488,8 @@ EmitTok == Done /\ Tok => PrintT(<<"VEC", ToJson([prop |-> "C16", cfg |-> cfg, i
 EmitMap == Done /\ part = "map" => PrintT(<<"MAP", ToJson([prop |-> "C16", cfg |-> cfg, in |-> in, class |-> MapClass,
                                                            pred |-> [subj |-> subj, claims |-> claims, gates |-> Gates,
                                                                      noSessionAdmit |-> GateNoSession]])>>)
+EmitLife == Done /\ Life => PrintT(<<"LIFE", ToJson([prop |-> "C16", cfg |-> cfg, in |-> in, class |-> LifeClass, why |-> LifeWhy,
+                                                     at |-> [sna |-> [i \in DOMAIN in.sna |-> EndAt(in.sna[i], cfg.life)],
+                                                             cond |-> EndAt(in.cond, cfg.life), scd |-> EndAt(in.scd, cfg.life)],
+                                                     pred |-> [out |-> out, exp |-> mt.exp, subj |-> subj, claims |-> claims]])>>)
 =============================================================================
